@@ -222,6 +222,27 @@ func checkC17(c *Ctx) {
 	}
 	_ = pf
 
+	// Z7: a panic value is never nil. This module is built with `go 1.19` semantics (GODEBUG panicnil=1): panic(nil) makes
+	// recover() return nil, so a boundary written `if r := recover(); r != nil { err = ... }` lets the function return (zero, nil).
+	r.Rule("C17.Z7", "explicit panics never carry a nil value (a nil panic value defeats every `recover() != nil` boundary)", 3)
+	for _, f := range sortedFuncs(reach) {
+		ord := ordinal{}
+		for _, b := range f.Blocks {
+			for _, ins := range b.Instrs {
+				pi, ok := ins.(*ssa.Panic)
+				if !ok {
+					continue
+				}
+				k := ord.next(FuncKey(f) + "#panic")
+				if why, ok := panicValueNonNil(pi.X, pi.Block(), 0); ok {
+					r.OK("C17.Z7", k, p.Pos(pi.Pos()), "panic value is not nil: "+why)
+				} else {
+					r.Bad("C17.Z7", k, p.Pos(pi.Pos()), "the value passed to panic may be nil ("+why+"): with the module's go 1.19 semantics recover() then returns nil, the boundary treats the call as successful and a zero result is returned with a nil error")
+				}
+			}
+		}
+	}
+
 	// Z3: goroutines
 	gos := 0
 	for f := range reach {
@@ -267,7 +288,7 @@ func checkC17(c *Ctx) {
 						blocking++
 						if strings.Contains(n, "Mutex") {
 							if !unlockDeferredOrFollows(f, x) {
-								r.Bad("C17.Z4", ord.next(FuncKey(f)+"#"+n), p.Pos(ins.Pos()), "a lock is taken without a matching deferred or straight-line unlock: a later call can block forever")
+								r.Bad("C17.Z4", ord.next(FuncKey(f)+"#"+n), p.Pos(ins.Pos()), "a lock is taken and its unlock is neither deferred nor the next call: a panic raised while the lock is held is turned into an error by the boundary above, the lock stays held, and every later call blocks forever")
 							} else {
 								r.OK("C17.Z4", ord.next(FuncKey(f)+"#"+n), p.Pos(ins.Pos()), "lock with matching unlock")
 							}
@@ -335,11 +356,34 @@ func recoversIndirectly(fn *ssa.Function) bool {
 
 func unlockDeferredOrFollows(f *ssa.Function, lock ssa.CallInstruction) bool {
 	want := strings.Replace(strings.Replace(funcFullName(ssaCalleeObj(lock)), "RLock", "RUnlock", 1), "Lock", "Unlock", 1)
+	// (a) the unlock is deferred: it also runs when a call in between panics and the panic is recovered further up
 	for _, b := range f.Blocks {
 		for _, ins := range b.Instrs {
-			if ci, ok := ins.(ssa.CallInstruction); ok && funcFullName(ssaCalleeObj(ci)) == want {
+			if d, ok := ins.(*ssa.Defer); ok && funcFullName(ssaCalleeObj(d)) == want {
 				return true
 			}
+		}
+	}
+	// (b) the unlock follows in the same block with no call in between (nothing can panic or return while the lock is held)
+	li, ok := lock.(ssa.Instruction)
+	if !ok {
+		return false
+	}
+	after := false
+	for _, ins := range li.Block().Instrs {
+		if ins == li {
+			after = true
+			continue
+		}
+		if !after {
+			continue
+		}
+		if ci, ok := ins.(ssa.CallInstruction); ok {
+			return funcFullName(ssaCalleeObj(ci)) == want
+		}
+		switch ins.(type) {
+		case *ssa.Return, *ssa.If, *ssa.Jump, *ssa.Panic:
+			return false
 		}
 	}
 	return false
@@ -770,4 +814,122 @@ func c17EmptyGraph(c *Ctx) {
 	if !found {
 		r.Unknown("C17.Z5", "indexer", "", "the function that indexes the flattened document was not found (expected: a one-argument function of internal/validator applied to the result of the flattening function)")
 	}
+}
+
+func sortedFuncs(m map[*ssa.Function]bool) []*ssa.Function {
+	var out []*ssa.Function
+	for f := range m {
+		out = append(out, f)
+	}
+	sort.Slice(out, func(i, j int) bool { return FuncKey(out[i]) < FuncKey(out[j]) })
+	return out
+}
+
+// panicValueNonNil: the interface value handed to panic cannot be the nil interface.
+func panicValueNonNil(v ssa.Value, at *ssa.BasicBlock, depth int) (string, bool) {
+	if depth > 4 {
+		return "value of unknown origin", false
+	}
+	switch x := v.(type) {
+	case *ssa.MakeInterface:
+		// a non-nil interface even when the boxed pointer is nil: recover() returns it and `r != nil` holds
+		return "a " + x.X.Type().String() + " boxed into an interface", true
+	case *ssa.Const:
+		if x.IsNil() {
+			return "the nil constant", false
+		}
+		return "constant", true
+	case *ssa.ChangeInterface:
+		return panicValueNonNil(x.X, at, depth+1)
+	case *ssa.Call:
+		n := funcFullName(ssaCalleeObj(x))
+		switch n {
+		case "errors.New", "fmt.Errorf":
+			return n + " never returns nil", true
+		}
+		if n == "recover" {
+			if dominatedByNonNilCheck(x, at) {
+				return "re-panic of a recovered value checked against nil", true
+			}
+		}
+	case *ssa.UnOp:
+		if g, isGlobal := x.X.(*ssa.Global); isGlobal && x.Op == token.MUL {
+			// a package-level variable: every store to it in its package must store a non-nil value
+			stores, allOK := 0, true
+			for _, m := range g.Pkg.Members {
+				fn, isFn := m.(*ssa.Function)
+				if !isFn {
+					continue
+				}
+				fns := append([]*ssa.Function{fn}, fn.AnonFuncs...)
+				for _, f := range fns {
+					for _, b := range f.Blocks {
+						for _, ins := range b.Instrs {
+							if st, ok := ins.(*ssa.Store); ok && st.Addr == g {
+								stores++
+								if _, ok := panicValueNonNil(st.Val, st.Block(), depth+1); !ok {
+									allOK = false
+								}
+							}
+						}
+					}
+				}
+			}
+			if g.Object() != nil && g.Object().Exported() {
+				allOK = false // other packages can assign it
+			}
+			if stores > 0 && allOK {
+				return "package variable " + g.Name() + " only ever assigned non-nil values", true
+			}
+		}
+	case *ssa.Phi:
+		for _, e := range x.Edges {
+			if why, ok := panicValueNonNil(e, at, depth+1); !ok {
+				return why, false
+			}
+		}
+		return "every incoming value is non-nil", true
+	}
+	if dominatedByNonNilCheck(v, at) {
+		return "checked against nil on the way to the panic", true
+	}
+	return "an interface value that is not compared with nil before the panic", false
+}
+
+// dominatedByNonNilCheck: block b is only reached through the non-nil branch of `v != nil` / `v == nil`.
+func dominatedByNonNilCheck(v ssa.Value, b *ssa.BasicBlock) bool {
+	for d := b; d != nil; d = d.Idom() {
+		idom := d.Idom()
+		if idom == nil {
+			break
+		}
+		iff, ok := idom.Instrs[len(idom.Instrs)-1].(*ssa.If)
+		if !ok {
+			continue
+		}
+		bo, ok := iff.Cond.(*ssa.BinOp)
+		if !ok {
+			continue
+		}
+		var other ssa.Value
+		if bo.X == v {
+			other = bo.Y
+		} else if bo.Y == v {
+			other = bo.X
+		} else {
+			continue
+		}
+		cst, ok := other.(*ssa.Const)
+		if !ok || !cst.IsNil() {
+			continue
+		}
+		// d must be reached only through the right successor
+		if bo.Op == token.NEQ && idom.Succs[0] == d && len(d.Preds) == 1 {
+			return true
+		}
+		if bo.Op == token.EQL && idom.Succs[1] == d && len(d.Preds) == 1 {
+			return true
+		}
+	}
+	return false
 }
